@@ -78,10 +78,11 @@ Section Sim.
     - (* SW_Next *)
       exists a. split; [reflexivity|].
       destruct Hwalk as [Hle Hw]. rewrite Epc in Hw.
-      destruct (s_cancel st) eqn:Ec.
-      + inv_some. subst st'. split; [exact Hb|]. cbn. rewrite Eret.
-        constructor; unf_all; cbn; rewrite ?Epc in *; auto.
-      + destruct (Nat.ltb_spec (sw_i st) (nentries p)) as [Hlt|Hge]; rewrite nentries_exp in *.
+      (* the walk checks its context once per entry, not after the last one *)
+      destruct (Nat.ltb_spec (sw_i st) (nentries p)) as [Hlt|Hge]; rewrite nentries_exp in *.
+      + destruct (s_cancel st) eqn:Ec.
+        * inv_some. subst st'. split; [exact Hb|]. cbn. rewrite Eret.
+          constructor; unf_all; cbn; rewrite ?Epc in *; auto.
         * inv_some. subst st'. split; [destruct (is_file p (sw_i st)); exact Hb|].
           assert (Eret' : send_ret (set_sw_pc (SW_Lock KStat) (if is_file p (sw_i st) then set_sfiles (sw_i st :: sfiles st) st else st)) = None)
             by (destruct (is_file p (sw_i st)); exact Eret).
@@ -94,8 +95,8 @@ Section Sim.
             - apply reg_files; [exact HF| |reflexivity]. unfold unrequested. rewrite HG; [reflexivity|lia].
             - intros id Hid. apply HG. lia. }
           constructor; unf_all; destruct (is_file p (sw_i st)) eqn:Ef; cbn; rewrite ?Epc in *; fin.
-        * inv_some. subst st'. split; [exact Hb|]. cbn. rewrite Eret.
-          constructor; unf_all; cbn; rewrite ?Epc in *; fin.
+      + inv_some. subst st'. split; [exact Hb|]. cbn. rewrite Eret.
+        constructor; unf_all; cbn; rewrite ?Epc in *; fin.
     - (* SW_Lock k: the mutex is taken, Stream.SendMsg is called *)
       unfold lock_s in H. cbn in H. destruct (s_mu st); [discriminate|]. inv_some. subst st'.
       destruct Hwalk as [Hle Hw]. rewrite Epc in Hw.
